@@ -152,6 +152,12 @@ func (fr *frame) runDeferStack(x *ssa.RunDefers) {
 	for i := len(fr.defers) - 1; i >= 0; i-- {
 		d := fr.defers[i]
 		if d.inLoop {
+			if d.fnv.fn != nil {
+				if ct := u.eng.ContractFor(d.fnv.fn); ct != nil && ct.Pure {
+					u.note("%s: deferred calls to %s registered inside a loop have no effect on modelled state (pure contract)", fr.fn.Name(), d.fnv.fn.Name())
+					continue
+				}
+			}
 			fr.havocAll("deferred call registered inside a loop")
 			continue
 		}
